@@ -698,7 +698,9 @@ struct Gen {
       case OP_REIM_IFFT:
       case OP_CPLX_FFT:
       case OP_CPLX_IFFT:
-        c.s[0] = new_raw(T_F64, 2 * m, true, vb);
+        // 6 %: data entirely in the subnormal range (multiples of 2^-1070 below 2^-1030): a transform that runs with
+        // flush-to-zero / denormals-are-zero returns zeros where the portable one returns the transform
+        c.s[0] = new_raw(T_F64, 2 * m, true, cfg.tiny_values && r.chance(6, 100) ? -(int)r.range(1030, 1033) : vb);
         break;
       case OP_REIM_MUL:
       case OP_CPLX_MUL:
